@@ -175,6 +175,18 @@ def run(ctx):
                      f"backends whose ids differ from trial numbers (RDB ids start at 1, in-memory ids are shared across studies)",
                      where=where(f, n))
     ctx.floor("R09.1", "id_source_sites", n_src, 30)
+    # wall-clock attributes of trials are as storage/run specific as ids: no use at all in decision code
+    n_time = 0
+    for f in p.iter_funcs(scope):
+        for n in own_nodes(f.node):
+            if isinstance(n, ast.Attribute) and n.attr in ("datetime_start", "datetime_complete", "duration") and isinstance(n.ctx, ast.Load) \
+                    and not (isinstance(n.value, ast.Name) and n.value.id == "self"):
+                n_time += 1
+                ctx.fail("R09.1", f.short, f"time-attr:{n.attr}",
+                         f"{f.name} reads `{norm(n)}`: wall-clock timestamps differ between runs and storages, so any decision based on them is not reproducible",
+                         where=where(f, n))
+    if n_time == 0:
+        ctx.ok("R09.1", "sampler/pruner packages", "no-wall-clock-attributes", how="0 reads of datetime_start/datetime_complete/duration", nontrivial=False)
     fx = Program.from_sources({"fx.sampler": FIXTURE})
     fl = [(v, d) for _, _, v, d in id_flows(fx, ("fx",), sm) if v == "flow"]
     ctx.require(len(fl) == 2, f"R09.1: positive fixture not flagged as expected ({fl})")
